@@ -81,6 +81,7 @@ def run(chk: Check):
                     "trial": I["json"]["trial"], "walker0": I["json"]["walkers"][0],
                     "exact_overlap0": [ex[0]["ov"].real, ex[0]["ov"].imag]}, limit=4)
     # 1-RDM
+    prev_rdm = {}
     for I in rdm_insts:
         if I["id"] not in res:
             continue
@@ -90,11 +91,30 @@ def run(chk: Check):
             continue
         trial, wd, hd, ham = wf.build_lib(I)
         exact = np.array([[[complex(x[0], x[1]) / nrm for x in row] for row in blk] for blk in R["rdm"]])
+        had_rdm1 = "rdm1" in wd
         try:
             got = np.asarray(trial.get_rdm1(wd))
             ok = got.shape == exact.shape and np.allclose(got, exact, rtol=0, atol=1e-9)
         except Exception as e:
             got, ok = repr(e), False
+        # the same question on a wave_data DICTIONARY that described another trial before (its parameters are replaced in
+        # place, as trial.optimize or a new set of CI coefficients does): the reported 1-RDM is that of the CURRENT trial
+        keyI = (I["kind"], I["norb"], I["nu"], I["nd"])
+        if ok and keyI in prev_rdm and not had_rdm1:
+            wdJ = prev_rdm[keyI]
+            try:
+                wdJ.update({k_: v_ for k_, v_ in wd.items() if k_ != "rdm1"})
+                got2 = np.asarray(trial.get_rdm1(wdJ))
+                ok2 = got2.shape == exact.shape and np.allclose(got2, exact, rtol=0, atol=1e-9)
+            except Exception as e:
+                got2, ok2 = repr(e), False
+            chk.case(("rdm-reused-dict", I["id"]))
+            if not ok2:
+                chk.violation(f"rdm1:{I['kind']}:reused-wave_data", f"{I['kind']} get_rdm1 on a wave_data dictionary whose parameters were "
+                              f"replaced in place (it described another trial before and get_rdm1 had been called on it) is not the 1-RDM "
+                              f"of the current trial (norb={I['norb']}, nelec=({I['nu']},{I['nd']}))", {"instance": I["json"]})
+        if ok and not had_rdm1:
+            prev_rdm[keyI] = wd
         chk.case(("rdm", I["id"]))
         chk.traces += 1
         if not ok:
